@@ -137,6 +137,9 @@ func cmdDump(args []string) int {
 	for _, c := range sortedKeys(rep.Callees) {
 		fmt.Println("CALLEE", c, "=>", rep.Callees[c])
 	}
+	for _, c := range sortedKeys(rep.Unmodelled) {
+		fmt.Println("UNMODELLED", c)
+	}
 	for _, w := range rep.Errors {
 		fmt.Println("ERROR", w)
 	}
@@ -676,7 +679,12 @@ func runScenario(sc replayScenario) (output string, failed bool, cmdline string)
 	if len(out) > 6000 {
 		out = out[:6000] + "…"
 	}
-	return out, err != nil, "cd /repo && go " + strings.Join(args, " ")
+	// reproduced = the test ran and failed; a build error is a broken replay, not a reproduction
+	failed = err != nil && strings.Contains(out, "--- FAIL")
+	if err != nil && !failed {
+		out = "REPLAY-BROKEN (did not build or run):\n" + out
+	}
+	return out, failed, "cd /repo && go " + strings.Join(args, " ")
 }
 
 // ---------------------------------------------------------------------------
